@@ -88,6 +88,12 @@ CHECKS = {
         technique=SYMEX + "; " + XH,
         ref="4 C02",
     ),
+    "C04": dict(
+        text="Bounded: the real get_evaluable_architecture / ..._for_module_objects over a symbolic file system of 11-14 candidate paths (packages with / without __init__.py, a/ next to ab.py and a_b/, a non-Python file, an empty directory, depth <= 5 components) with symbolic existence bits (asked lazily by the real directory walk) and symbolic presence of 2-3 candidate import lines per file (fully qualified, relative levels 1-3, written relative to module_path's parent); module_path in {r, r/a, r/a/x, r/a_b, r/a/x/y}, both entry points. On every path: modules, hierarchy and imports equal the reference; the sub-scan equals the full scan restricted to the sub-tree; decided by the z3 query 'exists file system: mismatch' over the decision-tree summary. Sampled assignments and every model are materialised as real directories and scanned by the unpatched code.",
+        note="Trusted: SymFS stub (validated by materialisation), ast.parse on the concrete text of each path, z3. Imports of a file's own ancestors and imports leaving the scanned sub-tree are don't-care. Outside: symlinks, non-UTF-8 sources, b.py beside b/, deeper trees.",
+        technique=SYMEX,
+        ref="4 C04",
+    ),
 }
 
 NOT_YET = {}
